@@ -435,8 +435,16 @@ fn parse_input_archive_config(
     ))
 }
 
-fn parse_hash_sum(hex_str: &str) -> Result<HashSum, std::num::ParseIntError> {
-    hex_str_to_vec(hex_str).map(HashSum::from)
+fn parse_hash_sum(hex_str: &str) -> Result<HashSum, String> {
+    let sum = hex_str_to_vec(hex_str).map_err(|err| err.to_string())?;
+    // A longer value would be cut to the size of a hash sum and could then match.
+    if sum.len() > HashSum::MAX_LEN {
+        return Err(format!(
+            "checksum is longer than {} bytes",
+            HashSum::MAX_LEN
+        ));
+    }
+    Ok(HashSum::from(sum))
 }
 
 fn add_archive_input_http_args(cmd: Command) -> Command {
